@@ -75,15 +75,13 @@ theorem C08_len_multi_of_tiling (ds : DataSource) (t : Text) (hwf : t.WF) (d : O
 
 /-! ### uniformity within a character -/
 
-/-- the original classes are uniform within each character, provided the data source gives
-    the classes RLI/LRI/FSI only to characters that take as many code units as U+2068 (true of
-    the Unicode data, where these are U+2066..U+2068; rule X5c rewrites `char_len(FSI)` units
-    at the position of an FSI).  Without the proviso the statement is false: see the test below. -/
-theorem C08_uniform_classes (ds : DataSource) (t : Text) (hwf : t.WF) (d : Option Nat) (split : Bool)
-    (hiso : ∀ s ∈ t.segs, (ds.cls s.cp).isIsolateInitiator = true →
-      t.enc.charLen s.cp = t.enc.charLen Gen.fcFSI) :
+/-- the original classes are uniform within each character, for every data source.  No proviso on
+    the width of the characters of class RLI/LRI/FSI is needed any more (since the repair of
+    finding D10): rule X5c rewrites exactly the code units of the character at the position of
+    the FSI (`text.char_at(start)`), not `char_len(FSI)` units — see the test below. -/
+theorem C08_uniform_classes (ds : DataSource) (t : Text) (hwf : t.WF) (d : Option Nat) (split : Bool) :
     UniformOn t (computeInitialInfo ds t d split).classes :=
-  initial_classes_uniform ds t hwf d split hiso
+  initial_classes_uniform ds t hwf d split
 
 /-- explicit stage: levels and processing classes are uniform within each character -/
 theorem C08_uniform_explicit (t : Text) (hwf : t.WF) (pl : Nat) (ocs : List BidiClass) :
@@ -205,14 +203,12 @@ theorem C08_range_para_partial (ds : DataSource) (pl : Nat) (pure hasIso : Bool)
 /-! ### non-vacuity and tests -/
 
 /-- the text "FSI alef PDI a é" (UTF-8, 11 code units, characters of 3, 2, 3, 1, 2 units) is
-    well-formed (`ofScalars_WF`, a proof for every `&str`) and the hardcoded data source
-    satisfies the proviso of `C08_uniform_classes` on it (test on this literal). -/
+    well-formed (`ofScalars_WF`, a proof for every `&str`): the hypothesis of
+    `C08_uniform_classes` holds for it (test on this literal). -/
 example :
     let t := Text.ofScalars [0x2068, 0x5D0, 0x2069, 0x61, 0xE9]
-    t.WF ∧ t.len = 11 ∧
-    (∀ s ∈ t.segs, (hardcoded.cls s.cp).isIsolateInitiator = true →
-      t.enc.charLen s.cp = t.enc.charLen Gen.fcFSI) :=
-  ⟨ofScalars_WF _, by decide, by decide +kernel⟩
+    t.WF ∧ t.len = 11 :=
+  ⟨ofScalars_WF _, by decide⟩
 
 /-- on the same text: the classes (X5c has rewritten the three units of the FSI to RLI), the
     levels, and that the hypotheses of `C08_uniform_levels_partial` (`ho`, `hseq`) and of
@@ -243,20 +239,20 @@ example : UniformOn (Text.ofScalars [0x61, 0xE9]) [0, 1, 1] ∧ ¬ UniformOn (Te
   · intro h
     exact absurd (h ⟨1, 0xE9, 2⟩ (by decide) 1 (by decide)) (by decide)
 
-/-- the proviso of `C08_uniform_classes` cannot be dropped: a data source that calls the
-    one-unit character "a" an FSI makes X5c (`for j in 0..char_len(FSI)`, lib.rs:386) write three
-    units, and the two units of "é" end with the classes LRI, L.  (The Unicode data never does
-    this: the isolate initiators are U+2066..U+2068.) -/
+/-- `C08_uniform_classes` needs no proviso on the data source (test on this literal): a data
+    source that calls the one-unit character "a" an FSI makes X5c write the one unit of "a" only,
+    and the two units of "é" keep the class L.  (Before the repair of finding D10 X5c wrote
+    `char_len(FSI)` = three units here, the classes were LRI, LRI, LRI, L, and the two units of
+    "é" ended with the classes LRI, L.) -/
 example :
     let ds : DataSource :=
       { cls := fun c => if c = 0x61 then .FSI else if c = 0x21 then .ON else .L, brk := fun _ => none }
     let t := Text.ofScalars [0x61, 0x21, 0xE9]
-    (computeInitialInfo ds t none true).classes = [.LRI, .LRI, .LRI, .L] ∧
+    (computeInitialInfo ds t none true).classes = [.LRI, .ON, .L, .L] ∧
     (computeInitialInfo ds t none true).err = none ∧
-    ¬ UniformOn t (computeInitialInfo ds t none true).classes := by
+    UniformOn t (computeInitialInfo ds t none true).classes := by
   refine ⟨by decide, by decide, ?_⟩
-  intro h
-  exact absurd (h ⟨2, 0xE9, 2⟩ (by decide) 1 (by decide)) (by decide)
+  exact C08_uniform_classes _ _ (ofScalars_WF _) none true
 
 /-- range theorems, sharpness of the bounds (test on literals): level 124 with EN reaches 126;
     a removed first unit takes the paragraph level. -/
